@@ -106,6 +106,15 @@ def run_case(case):
                  'anonymous': bool(getattr(d, 'anonymous', False)), 'targets': list(getattr(d, 'targets', []) or []),
                  'deriving': sorted(str(x.value) for x in getattr(d, 'deriving', []) or []),
                  'attrs': {gn: {a: attr(d, gn, a) for a in want.get('decl', [])} for gn in GENS}}
+            if case.get('ext_fields'):
+                e['computed'] = {}
+                for gn in GENS:
+                    try:
+                        mm = getattr(d, gn)
+                        names = sorted(type(mm).model_computed_fields.keys())
+                        e['computed'][gn] = {a: attr(d, gn, a) for a in names}
+                    except Exception as ex_:  # noqa
+                        e['computed'][gn] = {'__error__': str(ex_)[:100]}
             if k == 'Function':
                 e['ret'] = tref(d.return_type_ref)
                 e['throws'] = None if d.throwing is None else [tref(t) for t in d.throwing]
@@ -113,7 +122,21 @@ def run_case(case):
                 e['members'] = dump_members(d, want)
             decls.append(e)
         cfg = json.loads(ctx.config.model_dump_json())
-        return {'outcome': 'ok', 'decls': decls, 'config': cfg['generate']}
+        ext_fields = {}
+        try:
+            for t_ in ctx._api.generation_targets.values() if hasattr(ctx, '_api') else []:
+                pass
+        except Exception:  # noqa
+            pass
+        if case.get('ext_fields'):
+            from pydjinni import API as _API
+            a_ = _API()
+            for t_ in a_.generation_targets.values():
+                for gi in t_.generator_instances:
+                    m_ = getattr(gi, 'external_type_model', None)
+                    if m_ is not None:
+                        ext_fields[gi.key] = sorted(m_.model_fields.keys())
+        return {'outcome': 'ok', 'decls': decls, 'config': cfg['generate'], 'ext_fields': ext_fields}
     finally:
         os.chdir(cwd)
         shutil.rmtree(root, ignore_errors=True)
